@@ -279,6 +279,17 @@ def check_fields(rep, ix):
            found=f'fields {bad} typed by string_to_value' if bad else 'only valu is typed',
            required='mnem, unit and desc stay text: a mnemonic NO must not become False, a description 42 must not become 42',
            node=f, module=m)
+    # the integer reading is tried on every value: a pre-test such as isdigit() turns signed integers (-999, +3) into floats
+    gs = cfgmod.CFG(stv)
+    ints = [s_ for s_ in gs.stmts() if isinstance(s_, ast.Return) and isinstance(s_.value, ast.Call) and _n(s_.value.func) == 'int']
+    vp = stv.args.args[0].arg
+    bad = []
+    for r_ in ints:
+        for b, lab in gs.control_deps(r_):
+            if isinstance(b, ast.If) and show(nf(b.test)) not in (common.nfs(f'{vp} is not None'), common.nfs(f'{vp} is None')):
+                bad.append(_n(b.test))
+    rep.ob('R-C09-FIELDS', f'{M}:string_to_value', 'int(value) is attempted for every value (only a failed conversion falls through to float)', bool(ints) and not bad,
+           found='; '.join(bad) or f'{len(ints)} int() return(s)', required='try: return int(value) except ValueError', node=ints[0] if ints else stv, module=m)
     rep.ob('R-C09-FIELDS', f'{M}:string_to_value', 'values are typed as int, float, yes/no or stripped text', nonstr and any('strip' in _n(n) for n in walk_no_nested(stv)), found=str(kinds), node=stv, module=m)
 
 
